@@ -465,8 +465,10 @@ func c09c(c *Ctx, r *Report) {
 		for _, p := range rp {
 			exists := false
 			for _, cd := range p.Conds {
-				if strings.Contains(cd.Atom.String(), "CheckIsExist") {
+				if cd.Atom.Op == "call" && cd.Atom.Name == "result1" && strings.Contains(cd.Atom.String(), "CheckIsExist") {
 					exists = cd.Pol
+				} else if strings.Contains(cd.Atom.String(), "CheckIsExist") {
+					bad = "the reuse of an existing state depends on more than CheckIsExist's verdict: " + cd.String()
 				}
 			}
 			inserted := false
